@@ -200,26 +200,34 @@ package parser
 // Parser.split is the split function handed to the scanner: splitFunc's contract carried through unchanged, plus
 // the rule that makes "the BOM is removed only at offset 0 of the stream" hold: the scanner's windows start at
 // offset 0 until the first call that advances (assumed scanner contract), so a first token that is shorter than
-// the advance was preceded by skipped blank lines and must keep its first bytes.
+// the advance was preceded by skipped blank lines and must keep its first bytes. It also consumes, alone and at
+// once, the LF of a CRLF whose CR ended the previous token, so that byte never counts towards the next event's size.
+//@ pure lfhalf(r, data) = r.afterCR && len(data) > 0 && data[0] == '\n'
+
 //@ func Parser.split
 //@   requires r != nil && r.fieldScanner != nil
-//@   modifies r.consumed, r.fieldScanner.removeBOM
+//@   requires a_token_was_cut_before_a_cr_is_pending: r.afterCR ==> r.consumed
+//@   modifies r.consumed, r.afterCR, r.fieldScanner.removeBOM
 //@   ensures never_fails: err == nil
 //@   ensures within_the_window: 0 <= advance && advance <= len(data)
 //@   ensures no_token_without_advance: advance == 0 ==> len(token) == 0
-//@   ensures only_complete_events_before_eof: !atEOF && advance > 0 ==> eventend(data, advance)
-//@   ensures eof_flushes_the_rest: atEOF && len(data) > 0 ==> advance == len(data) || eventend(data, advance)
+//@   ensures second_half_of_a_crlf_is_consumed_alone: old(lfhalf(r, data)) ==> advance == 1 && len(token) == 0 && !r.afterCR && r.consumed == old(r.consumed) && r.fieldScanner.removeBOM == old(r.fieldScanner.removeBOM)
+//@   ensures only_complete_events_before_eof: !old(lfhalf(r, data)) && !atEOF && advance > 0 ==> eventend(data, advance)
+//@   ensures eof_flushes_the_rest: !old(lfhalf(r, data)) && atEOF && len(data) > 0 ==> advance == len(data) || eventend(data, advance)
 //@   ensures token_is_a_slice_of_the_window: advance > 0 ==> len(token) <= advance && token == substr(data, advance - len(token), advance)
-//@   ensures only_blank_lines_are_skipped: advance > 0 ==> forall(j, 0, advance - len(token), isNL(data[j]))
+//@   ensures only_line_breaks_are_skipped: advance > 0 ==> forall(j, 0, advance - len(token), isNL(data[j]))
 //@   ensures token_starts_with_content: advance > 0 && len(token) > 0 ==> !isNL(token[0])
-//@   ensures complete_event_has_content: !atEOF && advance > 0 ==> len(token) > 0
+//@   ensures complete_event_has_content: !old(lfhalf(r, data)) && !atEOF && advance > 0 ==> len(token) > 0
 //@   ensures first_token_after_skipped_bytes_keeps_its_bom: !old(r.consumed) && advance > 0 && advance != len(token) ==> !r.fieldScanner.removeBOM
 //@   ensures bom_option_untouched_otherwise: old(r.consumed) || advance == 0 || advance == len(token) ==> r.fieldScanner.removeBOM == old(r.fieldScanner.removeBOM)
-//@   ensures consumed_tracks_the_first_advance: r.consumed == (old(r.consumed) || advance > 0)
+//@   ensures consumed_tracks_the_first_advance: !old(lfhalf(r, data)) ==> r.consumed == (old(r.consumed) || advance > 0)
+//@   ensures after_cr_tracks_the_end_of_the_token: !old(lfhalf(r, data)) && advance > 0 ==> r.afterCR == (data[advance-1] == '\r')
+//@   ensures after_cr_only_waits_for_the_next_byte: !old(lfhalf(r, data)) && advance == 0 ==> r.afterCR == (old(r.afterCR) && len(data) == 0)
+//@   ensures pending_cr_implies_consumed: r.afterCR ==> r.consumed
 //@   ensures rest_of_field_parser_untouched: r.fieldScanner.data == old(r.fieldScanner.data) && r.fieldScanner.started == old(r.fieldScanner.started) && r.fieldScanner.err == old(r.fieldScanner.err)
 
 //@ func New
-//@   ensures nothing_consumed_yet: !result.consumed && sctok(result.inputScanner) == ""
+//@   ensures nothing_consumed_yet: !result.consumed && !result.afterCR && sctok(result.inputScanner) == ""
 //@   ensures scanner_cuts_with_the_parsers_split: scsplitis(result.inputScanner, "parser.Parser.split") && scsplitrecv(result.inputScanner) == result
 //@   ensures fresh_parser: result != nil && fresh(result) && fresh(result.fieldScanner) && result.inputScanner != nil && result.fieldScanner != nil && !scstarted(result.inputScanner) && !scdone(result.inputScanner) && scmax(result.inputScanner) == 0
 //@   ensures field_parser_configured: result.fieldScanner.removeBOM && !result.fieldScanner.keepComments && result.fieldScanner.err == nil && result.fieldScanner.data == "" && !result.fieldScanner.started
